@@ -265,3 +265,50 @@ func ordinalField(fn *ssa.Function, in ssa.Instruction, f *types.Var) string {
 	}
 	return "#?"
 }
+
+func init() {
+	reg("C19-R4", "FlushPage takes the read latch of the page it writes, so no caller may hold a page latch when it calls FlushPage / FlushAllPages / FlushAllDirtyPages (a write latch of the same page would dead-lock the caller on itself, a latch of another page inverts the order with the checkpoint): at every such call site outside package buffer no page latch acquired in the calling function is still held", func(w *World, r *Report) {
+		a := w.A()
+		lt := w.LockTable()
+		targets := map[*types.Func]bool{a.BPMFlushPage: true, a.BPMFlushAll: true, a.BPMFlushAllDirty: true}
+		n := 0
+		for _, fn := range w.RepoFuncs {
+			if w.IsTestFunc(fn) || fn.Pkg == nil || fn.Pkg.Pkg.Path() == libMod+"/storage/buffer" || fn.Synthetic != "" {
+				continue
+			}
+			calls := false
+			var latchPaths []string
+			EachCall(fn, func(c ssa.CallInstruction) {
+				o := CalleeObj(c)
+				if o == nil {
+					return
+				}
+				if targets[o] {
+					calls = true
+				}
+				if op, ok := lt.ops[o]; ok && (op == opLock || op == opRLock) && (o == a.PageRLatch || o == a.PageWLatch) {
+					latchPaths = append(latchPaths, lt.lockPath(c.Common().Args[0]))
+				}
+			})
+			if !calls || fn.Parent() != nil {
+				continue
+			}
+			var bad []string
+			lw := &LockWalk{W: w, Fn: fn, OnInstr: func(in ssa.Instruction, st *LState) {
+				c, ok := in.(ssa.CallInstruction)
+				if !ok || !targets[CalleeObj(c)] {
+					return
+				}
+				n++
+				for _, p := range latchPaths {
+					if st.Holds(p, false) {
+						bad = append(bad, CalleeObj(c).Name()+" at "+w.InstrPos(in)+" while the latch of "+p+" is held")
+					}
+				}
+			}}
+			lw.Run()
+			r.Check(len(bad) == 0 && !lw.Truncated, funcKey(fn)+":no-page-latch-held-at-flush", "the pool's flush functions are called without any page latch held", strings.Join(uniq(bad), "; "))
+		}
+		r.Floor("flush call sites outside package buffer", n, 4)
+	})
+}
